@@ -125,7 +125,7 @@ static std::string pad(const std::string &s, size_t w) { return s.size() >= w ? 
 
 // renders the whole expected stdout; ratio variant chosen by 'dbl'
 static std::string render_list(const Plan &p, const std::vector<ListTruth> &lts, bool dbl) {
-	std::string cmd = p.argv[1];
+	std::string cmd = p.argv.size() == 2 ? std::string("l") : p.argv[1];
 	if (!cmd.empty() && cmd[0] == '-') cmd.erase(0, 1);
 	bool verbose_cmd = cmd[0] == 'v';
 	bool wide = false;
@@ -354,6 +354,15 @@ struct C19 : Scenario {
 		p.argv = {"lha", cmds[rng.below(12)], rng.chance(1, 4) ? "-" : "/w/a.lzh"};
 		if (p.argv[2] == "-") p.sets("srckind", rng.chance(1, 2) ? "FILE_PIPE" : "FILE_SEEK");
 		else if (rng.chance(1, 6)) p.sets("srckind", "FILE_HALFSEEK");
+		if (rng.chance(1, 16)) {
+			// "lha ARCHIVE" is "lha l ARCHIVE", whatever the archive is called
+			static const char *names[] = {"lv.lzh", "env.lzh", "tq.lzh", "evil.lzh", "a.lzh", "lq", "pq1v", "xf.lzh", "vv", "live-cd.lzh"};
+			std::string nm = names[rng.below(10)];
+			p.sets("arcname", nm);
+			p.argv = {"lha", nm};
+			p.sets("srckind", "FILE_SEEK");
+			return p;
+		}
 		int nf = rng.chance(1, 2) ? 0 : 1 + (int) rng.below(3);
 		for (int i = 0; i < nf; ++i) {
 			const Member &m = p.members[rng.below(p.members.size())];
@@ -427,7 +436,8 @@ struct C19 : Scenario {
 		res.nontrivial = rows >= 2;
 		count("kind.cmd." + p.argv[1]);
 		count("kind.tz." + p.gets("tz"));
-		count("kind.src." + (p.argv[2] == "-" ? "stdin_" + p.gets("srckind") : p.gets("srckind", "FILE_SEEK")));
+		count("kind.src." + (p.argv.size() > 2 && p.argv[2] == "-" ? "stdin_" + p.gets("srckind") : p.gets("srckind", "FILE_SEEK")));
+		if (p.argv.size() == 2) count("kind.one_argument_form");
 		count("probe.clock_reads", g_sim.clock_reads);
 		count("probe.rows", rows);
 		res.trace = finish_trace();
@@ -524,8 +534,36 @@ struct C18 : Scenario {
 				p.members.push_back(d);
 			}
 		}
+		if (rng.chance(1, 8) && !p.members.empty() && p.members[0].kind == 'f' && p.members[0].gpath.empty() && !p.members[0].gname.empty()) {
+			// a regular file below a path component that is itself an (already extracted) file: the tool cannot even stat it
+			Member g = p.members[0];
+			Member f2;
+			f2.level = (int) rng.below(3);
+			f2.os = 'U';
+			f2.kind = 'f';
+			f2.method = "-lh0-";
+			f2.plain = to_bytes("x\n"); f2.data = f2.plain;
+			Bytes nm2 = hostile_str(rng, 8, false);
+			f2.gpath = g.gname + "/"; f2.gname = to_str(nm2);
+			encode_names(f2, f2.gpath, f2.gname);
+			encode_unix_meta(f2, -1, -1, -1, 1000000000, 0, false);
+			p.members.push_back(f2);
+		}
 		static const char *cmds[] = {"l", "lv", "v", "vv", "t", "xf", "xn", "xq0", "xq1", "xq2", "xfi", "p", "pq", "ef", "tq1", "pn", "xfv", "tv", "xfw=out", "vq1"};
 		p.argv = {"lha", cmds[rng.below(20)], "/w/a.lzh"};
+		if (rng.chance(1, 8)) {
+			// the files exist already and the overwrite policy is to ask: the prompt names the file
+			p.argv[1] = rng.chance(1, 2) ? "x" : "e";
+			for (auto &m : p.members)
+				if (m.kind == 'f' && !m.gname.empty() && m.gname.find('\0') == std::string::npos) {
+					FsEnt e; e.type = 'f'; e.path = "/w/x/y/root/" + m.gpath + m.gname; e.data = to_bytes("old"); e.mode = 0644;
+					bool clash = false;
+					for (auto &x : p.fs) if (x.path == e.path || x.path.compare(0, e.path.size() + 1, e.path + "/") == 0 || e.path.compare(0, x.path.size() + 1, x.path + "/") == 0) clash = true;
+					if (!clash) p.fs.push_back(e);
+				}
+			static const char *scr[] = {"n\nn\nn\nn\nn\nn\n", "y\ny\ny\ny\ny\ny\n", "s\n", "a\n", "q\nn\nzz\ny\nn\nn\nn\n"};
+			p.stdin_script = scr[rng.below(5)];
+		}
 		if (rng.chance(1, 5)) {
 			const Member &m = p.members[rng.below(p.members.size())];
 			std::string full = m.gpath + m.gname;
@@ -570,6 +608,9 @@ struct C18 : Scenario {
 		res.ops = 1;
 		res.nontrivial = hostile_printed;
 		count("kind.cmd." + p.argv[1]);
+		if (all.find("OverWrite ?") != std::string::npos) count("probe.overwrite_prompt_shown");
+		if (all.find("Failed to read file type") != std::string::npos) count("probe.file_type_message");
+		if (all.find("Symbolic link") != std::string::npos) count("probe.symlink_message");
 		res.trace = finish_trace();
 		return res;
 	}
